@@ -57,6 +57,8 @@ structure World where
   /-- (proxy, link name) pairs whose counters were already added -/
   countedR  : List (String × String) := []
   countedS  : List (String × String) := []
+  /-- virtual time the last `settle` let pass (the harness scales its real-time waits by it) -/
+  elapsed   : Int := 0
 deriving Repr
 
 def upName (c : String) : String := c ++ "u"
@@ -97,7 +99,8 @@ def couple (p : PProxy) (c : CConn) : PProxy × CConn :=
   let downClosed := (down.map (·.l.destClosed)).getD false
   let c2 := if upClosed && !c1.server.ended then { c1 with server := { c1.server with ended := true, rst := c1.linger0 } } else c1
   let c3 := if downClosed && !c2.client.ended then { c2 with client := { c2.client with ended := true, rst := c2.linger0 } } else c2
-  let cut := fun (l : Link) => if l.srcEOF then l else { l with srcEOF := true, srcQ := [], srcCut := true }
+  let cut := fun (l : Link) => if l.srcEOF then l else
+    { l with srcEOF := true, srcQ := [], srcCut := true, cutHi := l.sent.length + (l.srcQ.map List.length).sum }
   let coll1 := if upClosed then updLink p.coll (downName c.name) cut else p.coll
   let coll2 := if downClosed then updLink coll1 (upName c.name) cut else coll1
   ({ p with coll := coll2 }, c3)
@@ -118,13 +121,21 @@ def PProxy.settle : Nat → PProxy → PProxy
     if (p1.coll.move).isSome || p1.coll.nextTimer.isSome then PProxy.settle n { p1 with coll := again }
     else p1
 
+/-- Zero-time moves only (no timer fires): the state "at this instant". -/
+def PProxy.settleNow : Nat → PProxy → PProxy
+  | 0, p => p
+  | n + 1, p =>
+    let p1 := coupleAll { p with coll := p.coll.settle 100000 }
+    if (p1.coll.move).isSome then PProxy.settleNow n p1 else p1
+
 def labelsOf (p : PProxy) (d : Dir) : Labels :=
   ⟨match d with | .up => "upstream" | .down => "downstream", p.name, p.listen, p.upstream⟩
 
 /-- `link.read`'s counter update for one link: once, when its source goroutine has ended. -/
 def World.countR (w : World) (pn : String) (k : Labels) (nl : NLink) : World :=
   if nl.l.srcDone && !w.countedR.contains (pn, nl.name) then
-    { w with received := addCtr2 w.received k (if nl.l.srcCut then nl.l.delivered.length else nl.l.sent.length) nl.l.sent.length,
+    { w with received := addCtr2 w.received k (if nl.l.srcCut then nl.l.delivered.length else nl.l.sent.length)
+                                              (if nl.l.srcCut then max nl.l.sent.length nl.l.cutHi else nl.l.sent.length),
              countedR := (pn, nl.name) :: w.countedR } else w
 
 /-- `link.write`'s counter update: once, when the sink ended without a write error. -/
@@ -144,13 +155,14 @@ def World.count (w : World) (p : PProxy) (labs : String → Option Labels) : Wor
     | some k => w.countLink p.name k nl) w
 
 /-- Goroutines of toxiproxy code alive for a proxy: per link the source goroutine until its
-source ended, every running stub, the sink goroutine until it closed the destination;
+source ended, every running stub, the sink goroutine until it closed the destination (and
+the goroutine it leaves draining the last stub's output after a failed write);
 two more (accept loop, freeBlocker) while the proxy is enabled. -/
 def goroutines (p : PProxy) : Nat × Nat × Nat × Nat :=
   let ls := allLinks p.coll
   let src := (ls.filter fun nl => !nl.l.srcDone).length
   let stubs := (ls.map fun nl => (nl.l.stages.filter fun s => s.pc.running).length).foldl (· + ·) 0
-  let sinks := (ls.filter fun nl => !nl.l.destClosed).length
+  let sinks := (ls.filter fun nl => !nl.l.destClosed || nl.l.sinkDrain).length
   (src, stubs, sinks, if p.enabled then 2 else 0)
 
 def isReset : Cfg → Bool
@@ -174,10 +186,33 @@ def PProxy.stop (p : PProxy) : PProxy :=
   let conns := p.conns.map fun c =>
     { c with client := { c.client with ended := true, rst := c.linger0 },
              server := { c.server with ended := true, rst := c.linger0 } }
-  let kill := fun (l : Link) => { l with srcEOF := true, srcQ := [], sinkFail := true, srcCut := l.srcCut || !l.srcDone }
+  let kill := fun (l : Link) => { l with srcEOF := true, srcQ := [], sinkFail := true, srcCut := l.srcCut || !l.srcDone,
+                                         cutHi := max l.cutHi (l.sent.length + (l.srcQ.map List.length).sum) }
   let coll := { p.coll with links := p.coll.links.map (fun nl => { nl with l := kill nl.l }),
                             dead := p.coll.dead.map (fun nl => { nl with l := kill nl.l }) }
   { p with enabled := false, conns := conns, coll := coll }
+
+/-- A peer resets its connection (`SO_LINGER 0` + close): the link reading from that socket
+gets an error (its source ends), every later write to it fails. -/
+def PProxy.abort (p : PProxy) (cname : String) (client : Bool) : PProxy :=
+  let rd := if client then upName cname else downName cname
+  let wr := if client then downName cname else upName cname
+  -- (when the proxy had not read everything the peer sent, how much it had read is timing)
+  let coll1 := updLink p.coll rd (fun l => if l.srcEOF then l else
+    { l with srcEOF := true, srcQ := [], srcCut := l.srcCut || !l.srcQ.isEmpty,
+             cutHi := max l.cutHi (l.sent.length + (l.srcQ.map List.length).sum) })
+  let coll2 := updLink coll1 wr (fun l => { l with sinkFail := true })
+  let conns := p.conns.map fun c =>
+    if c.name != cname then c
+    else if client then { c with client := { c.client with ended := true } }
+    else { c with server := { c.server with ended := true } }
+  { p with coll := coll2, conns := conns }
+
+/-- A peer stops / resumes reading: writes towards it block (the harness sends enough to
+fill the kernel's buffers before anything depends on it). -/
+def PProxy.setReading (p : PProxy) (cname : String) (client : Bool) (reading : Bool) : PProxy :=
+  let wr := if client then downName cname else upName cname
+  { p with coll := updLink p.coll wr (fun l => { l with sinkReady := reading }) }
 
 def PProxy.labs (p : PProxy) (n : String) : Option Labels :=
   p.conns.findSome? fun c =>
@@ -187,6 +222,14 @@ def PProxy.labs (p : PProxy) (n : String) : Option Labels :=
 def World.settle (w : World) : World :=
   let ps := w.proxies.map (PProxy.settle 50)
   let gs := w.gone.map (PProxy.settle 50)
+  let dur := ((w.proxies ++ w.gone).zip (ps ++ gs)).foldl (fun (acc : Int) pq => max acc (pq.2.coll.now - pq.1.coll.now)) 0
+  let w1 := { w with proxies := ps, gone := gs, elapsed := dur }
+  (ps ++ gs).foldl (fun w p => w.count p p.labs) w1
+
+/-- The same without letting time pass. -/
+def World.settleNow (w : World) : World :=
+  let ps := w.proxies.map (PProxy.settleNow 50)
+  let gs := w.gone.map (PProxy.settleNow 50)
   let w1 := { w with proxies := ps, gone := gs }
   (ps ++ gs).foldl (fun w p => w.count p p.labs) w1
 
